@@ -9,12 +9,14 @@ mod c18;
 mod c19;
 mod hashers;
 mod hsweep;
+#[cfg(feature = "internals")]
 mod chist;
 mod ciphers;
 mod explore;
 mod guts;
 mod report;
 mod simd;
+#[cfg(feature = "internals")]
 mod srcheck;
 mod tf;
 
@@ -28,7 +30,9 @@ fn run_check(name: &str, tier: &str, config: &str) -> Option<Report> {
     let (tier, config) = (&tier.to_string(), &config.to_string());
     Some(match name {
         "c01" => c01::run(tier, config),
+        #[cfg(feature = "internals")]
         "c02" => chist::run("C02", tier, config),
+        #[cfg(feature = "internals")]
         "c11" => chist::run("C11", tier, config),
         "c04" => hsweep::run_c04(tier, config),
         "c05" => c05::run(tier, config),
@@ -83,6 +87,7 @@ fn main() {
         let check = r["check"].as_str().unwrap_or("").to_string();
         let specific: Option<bool> = match check.as_str() {
             "C01" => Some(c01::replay(&r)),
+            #[cfg(feature = "internals")]
             "C02" | "C11" => Some(chist::replay(&r)),
             "C04" | "C05" | "C06" | "C07" => if r.get("msg").is_some() { hsweep::replay(&r) } else { None },
             "C08" => c08::replay(&r),
